@@ -103,16 +103,17 @@ def _expr_post(x, frag=None):
     if isinstance(x, (ast.Tuple, ast.MatchSequence)) and x.lineno == 0:  # unparenthesised tuple took the wrapper's parentheses as its own: give it the extent of its tokens
         toks = []
 
-        try:
-            for t in tokenize.generate_tokens(io.StringIO(frag).readline):
+        try:  # tokenised inside parentheses: no INDENT / DEDENT bookkeeping for continuation lines that step back; rows shifted back by one
+            for t in tokenize.generate_tokens(io.StringIO('(\n' + frag + '\n)').readline):
                 if t.type not in (tokenize.NL, tokenize.NEWLINE, tokenize.COMMENT, tokenize.INDENT, tokenize.DEDENT, tokenize.ENDMARKER):
                     toks.append(t)
         except tokenize.TokenError:
             pass  # EOF after a trailing backslash continuation: the tokens so far are all there are
 
+        toks = toks[1:-1] if toks and toks[-1].string == ')' and toks[-1].start[0] == frag.count('\n') + 3 else toks[1:]
         lines = frag.split('\n')
-        x.lineno, x.col_offset = toks[0].start[0], len(lines[toks[0].start[0] - 1][:toks[0].start[1]].encode())
-        x.end_lineno, x.end_col_offset = toks[-1].end[0], len(lines[toks[-1].end[0] - 1][:toks[-1].end[1]].encode())
+        x.lineno, x.col_offset = toks[0].start[0] - 1, len(lines[toks[0].start[0] - 2][:toks[0].start[1]].encode())
+        x.end_lineno, x.end_col_offset = toks[-1].end[0] - 1, len(lines[toks[-1].end[0] - 2][:toks[-1].end[1]].encode())
 
     return x
 
@@ -126,7 +127,7 @@ WRAPPERS = {
     'exec': [('', '', (), 'exec', _ident)],
     'stmts': [('', '', (), 'exec', _ident)],
     'eval': [('', '', (), 'eval', _ident)],
-    'single': [('', '', (), 'single', _ident)],
+    'single': [('', '', (), 'single', _ident), ('', '\n', (), 'single', _ident)],  # CPython's 'single' start rule wants the line break after a compound statement
     'stmt': [('', '', ('body',), 'exec', _one)],
     'expr': EXPR_W,
     'expr_arglike': ARGLIKE_W + EXPR_W,
@@ -138,16 +139,18 @@ WRAPPERS = {
     '_decorator_list': [('', '\nclass _: pass', ('body', 0, 'decorator_list'), 'exec', _ident)],
     '_arglike': [('_(\n', '\n)', ('body', 0, 'value'), 'exec', _sole_arglike)],
     '_arglikes': [('_(\n', '\n)', ('body', 0, 'value'), 'exec', _call_merged)],
-    'boolop': [('a ', ' b', ('body', 0, 'value', 'op'), 'exec', _is(ast.boolop))],
-    'operator': [('a ', ' b', ('body', 0, 'value', 'op'), 'exec', _is(ast.operator)), ('a ', ' b', ('body', 0, 'op'), 'exec', _is(ast.operator))],
-    'unaryop': [('', ' a', ('body', 0, 'value', 'op'), 'exec', _is(ast.unaryop))],
-    'cmpop': [('a ', ' b', ('body', 0, 'value', 'ops'), 'exec', _one)],
+    'boolop': [('a ', ' b', ('body', 0, 'value', 'op'), 'exec', _is(ast.boolop)), ('(a\n', '\nb)', ('body', 0, 'value', 'op'), 'exec', _is(ast.boolop))],
+    'operator': [('a ', ' b', ('body', 0, 'value', 'op'), 'exec', _is(ast.operator)), ('a ', ' b', ('body', 0, 'op'), 'exec', _is(ast.operator)),
+                 ('(a\n', '\nb)', ('body', 0, 'value', 'op'), 'exec', _is(ast.operator)), ('a \\\n', '\\\nb', ('body', 0, 'op'), 'exec', _is(ast.operator))],
+    'unaryop': [('', ' a', ('body', 0, 'value', 'op'), 'exec', _is(ast.unaryop)), ('(\n', '\na)', ('body', 0, 'value', 'op'), 'exec', _is(ast.unaryop))],
+    'cmpop': [('a ', ' b', ('body', 0, 'value', 'ops'), 'exec', _one), ('(a\n', '\nb)', ('body', 0, 'value', 'ops'), 'exec', _one)],
     'comprehension': [('[_ \n', '\n]', ('body', 0, 'value', 'generators'), 'exec', _one)],
     '_comprehensions': [('[_ \n', '\n]', ('body', 0, 'value', 'generators'), 'exec', _ident)],
     '_comprehension_ifs': [('[_ for _ in _ \n', '\n]', ('body', 0, 'value', 'generators', 0, 'ifs'), 'exec', _ident)],
     'arguments': [('def _(\n', '\n): pass', ('body', 0, 'args'), 'exec', _ident)],
     'arguments_lambda': [('(lambda\n', '\n: _)', ('body', 0, 'value', 'args'), 'exec', _ident), ('(lambda', ': _)', ('body', 0, 'value', 'args'), 'exec', _ident)],
-    'arg': [('def _(\n', '\n): pass', ('body', 0, 'args'), 'exec', _args_sole_arg)],
+    'arg': [('def _(\n', '\n): pass', ('body', 0, 'args'), 'exec', _args_sole_arg),
+            ('def _(*\n', '\n): pass', ('body', 0, 'args', 'vararg'), 'exec', _ident)],  # an arg with a starred annotation is the vararg
     'keyword': [('_(\n', '\n)', ('body', 0, 'value'), 'exec', _sole_kw)],
     'alias': [('from _ import (\n', '\n)', ('body', 0, 'names'), 'exec', _one), ('import ', '', ('body', 0, 'names'), 'exec', _one),
               ('from _ import ', '', ('body', 0, 'names'), 'exec', _one)],
@@ -340,6 +343,24 @@ def dump_pfst(mode, a):
 # fragment extraction (CPython extents only)
 
 
+def top_level_comma(frag):
+    depth = 0
+
+    try:
+        for t in tokenize.generate_tokens(io.StringIO('(\n' + frag + '\n)').readline):
+            if t.type == tokenize.OP:
+                if t.string in '([{':
+                    depth += 1
+                elif t.string in ')]}':
+                    depth -= 1
+                elif t.string == ',' and depth == 1:
+                    return True
+    except (tokenize.TokenError, IndentationError, SyntaxError):
+        return ',' in frag
+
+    return False
+
+
 def seg(S, a, b=None):
     b = b or a
     x = ast.AST()
@@ -391,7 +412,7 @@ def extract(S, tree):
                 s = seg(S, n)
                 add('expr', s)
 
-                if isinstance(n, ast.Tuple) and (',' in s or s.startswith('(')):
+                if isinstance(n, ast.Tuple) and (top_level_comma(s) or s.startswith('(')):  # 'a[*b]': the slice is a Tuple only by its position in the subscript
                     add('Tuple', s)
 
         if isinstance(n, (ast.JoinedStr, ast.FormattedValue)):
@@ -656,9 +677,9 @@ STRAY = (')', '(', ',', '=', 'if', ':', '+', 'x', ']', 'for', '*', '@', ';', '1'
 
 def params(tier):
     if tier == 'quick':
-        return {'examples': 220, 'wall': 80, 'case_timeout': 60}
+        return {'examples': 500, 'wall': 100, 'case_timeout': 60}
 
-    return {'examples': 5000, 'wall': 600, 'case_timeout': 120}
+    return {'examples': 12000, 'wall': 600, 'case_timeout': 120}
 
 
 def floors(tier):
@@ -952,7 +973,12 @@ def execute(case, ctx):
             # metamorphic, guessing modes: a comment after the last token never changes what the source is parsed as
             for gm in ('all', 'strict'):
                 try:
-                    k0 = dump_pfst(gm, FST(frag, gm).a)
+                    a0 = FST(frag, gm).a
+
+                    if a0.__class__.__name__ == '_Assign_targets':
+                        continue  # 'x =' (also the literal text of a self-documenting f-string field): no comment can follow the last '='
+
+                    k0 = dump_pfst(gm, a0)
                 except Exception:
                     continue
 
